@@ -14,7 +14,7 @@ use serde_json::json;
 pub static MONITOR: Monitor = Monitor {
     id: "C19",
     title: "Competing declarations are resolved by the CSS cascade",
-    rule: "Exhaustive part: every ordered pair and every ordered triple of `color` declarations drawn from origin {agent (add_agent_css), user (add_css), author (<style> + use_doc_css), inline (style=)} x {normal, !important} x selector specificity class {element, class, id, element+class, :nth-child} x both source orders, applied to one element `<p class=c id=i>`; every declaration has its own colour. Random part: sheets of up to 12 colour / background-color / background rules in all origins plus inline styles over nested documents in which every element owns a token. Reference cascade (harness): sort key (importance/origin rank agent < user < author < author! < user! < agent!, inline flag, (ids, classes+pseudo-classes, types), source order), greatest wins. Observation: the Colour / BgColour annotations on each element's own token in rich output, as the sequence contributed by its ancestors-or-self; expected sequence = per element the cascade winner of the declarations whose selector matches it (reference matcher of C20). Distinct/non-trivial = distinct (declaration set, element) cases with at least two competing declarations for the same property on one element.",
+    rule: "Exhaustive part: every ordered pair and every ordered triple of `color` declarations drawn from origin {agent (add_agent_css), user (add_css), author (<style> + use_doc_css), inline (style=)} x {normal, !important} x selector specificity class {element, class, id, element+class, :nth-child, the class repeated 11 times, the id repeated 11 times} x both source orders, applied to one element `<p class=c id=i>`; every declaration has its own colour. Random part: sheets of up to 12 rules of 1-3 colour / background-color / background declarations (a block may repeat a property with different importance) in all origins plus inline styles over nested documents in which every element owns a token. Reference cascade (harness): sort key (importance/origin rank agent < user < author < author! < user! < agent!, inline flag, (ids, classes+pseudo-classes, types), source order), greatest wins. Observation: the Colour / BgColour annotations on each element's own token in rich output, as the sequence contributed by its ancestors-or-self; expected sequence = per element the cascade winner of the declarations whose selector matches it (reference matcher of C20). Distinct/non-trivial = distinct (declaration set, element) cases with at least two competing declarations for the same property on one element.",
     assumptions: &[
         "selector matching itself is C20's subject; the selectors used here are simple enough to be uncontroversial in the exhaustive part",
         "declarations of one origin are given to the renderer in the order listed (one sheet per origin, or two add_css calls in order)",
@@ -27,7 +27,7 @@ pub static MONITOR: Monitor = Monitor {
 };
 
 const ORIGINS: usize = 4; // agent, user, author, inline
-const SPECS: usize = 5;
+const SPECS: usize = 7;
 // a declaration = (origin, important, spec class); inline ignores spec class
 fn decl_space() -> Vec<(usize, bool, usize)> {
     let mut v = Vec::new();
@@ -89,7 +89,10 @@ fn spec_selector(s: usize) -> (&'static str, (u32, u32, u32)) {
         1 => (".c", (0, 1, 0)),
         2 => ("#i", (1, 0, 0)),
         3 => ("p.c", (0, 1, 1)),
-        _ => ("p:nth-child(1)", (0, 1, 1)),
+        4 => ("p:nth-child(1)", (0, 1, 1)),
+        // eleven entries in one column must still lose to one entry in the next column
+        5 => (".c.c.c.c.c.c.c.c.c.c.c", (0, 11, 0)),
+        _ => ("#i#i#i#i#i#i#i#i#i#i#i", (11, 0, 0)),
     }
 }
 
@@ -413,10 +416,26 @@ fn run_random(rng: &mut Rng, out: &mut CaseOut) {
         };
         let rule = Rule {
             selectors: vec![sel],
-            decls: vec![Decl {
-                kind,
-                important: rng.chance(1, 4),
-            }],
+            decls: {
+                // usually one declaration per block; sometimes several, which may
+                // repeat a property with different importance
+                let mut v = vec![Decl {
+                    kind,
+                    important: rng.chance(1, 4),
+                }];
+                while rng.chance(1, 4) && v.len() < 3 {
+                    let (c, f) = gen_colour(rng);
+                    v.push(Decl {
+                        kind: match rng.below(3) {
+                            0 => DeclKind::Color(c, f),
+                            1 => DeclKind::BgColor(c, f),
+                            _ => DeclKind::Background(c, f),
+                        },
+                        important: rng.chance(1, 4),
+                    });
+                }
+                v
+            },
         };
         sheets[rng.below(3)].push(rule);
     }
@@ -425,24 +444,30 @@ fn run_random(rng: &mut Rng, out: &mut CaseOut) {
     let mut counter = 0;
     ast::for_each_el_mut(&mut doc, &mut |e| {
         if rng.chance(1, 6) {
-            let is_bg = rng.chance(1, 3);
-            let imp = rng.chance(1, 4);
-            let col = (rng.below(256) as u8, rng.below(256) as u8, rng.below(256) as u8);
-            let key = format!("u{}", counter);
-            counter += 1;
-            e.set_attr(
-                "style",
-                &format!(
-                    "{}: #{:02x}{:02x}{:02x}{}",
+            let mut ds = Vec::new();
+            let mut text = String::new();
+            loop {
+                let is_bg = rng.chance(1, 3);
+                let imp = rng.chance(1, 4);
+                let col = (rng.below(256) as u8, rng.below(256) as u8, rng.below(256) as u8);
+                text.push_str(&format!(
+                    "{}: #{:02x}{:02x}{:02x}{};",
                     if is_bg { "background-color" } else { "color" },
                     col.0,
                     col.1,
                     col.2,
                     if imp { " !important" } else { "" }
-                ),
-            );
+                ));
+                ds.push((is_bg, imp, col));
+                if ds.len() >= 3 || !rng.chance(1, 3) {
+                    break;
+                }
+            }
+            let key = format!("u{}", counter);
+            counter += 1;
+            e.set_attr("style", text.trim_end_matches(';'));
             e.set_attr("data-u", &key);
-            inline_styles.push((key, vec![(is_bg, imp, col)]));
+            inline_styles.push((key, ds));
         }
     });
     let mut st = CssStyle::canonical();
